@@ -357,7 +357,9 @@ class Check:
             files = coq_closure(pid)
         except Exception as e:  # pragma: no cover
             self.problem("proof", "coqdep failed: %s" % e)
-        bad = hygiene()
+        # forbidden constructs are searched in everything this property's theorems depend on
+        # (plus its audit file); other properties' files are covered by their own checks
+        bad = hygiene(files=[os.path.join(COQ, f) for f in files] + [os.path.join(COQ, "Props", pid + "_audit.v")]) if files else hygiene()
         if bad:
             self.problem("proof", "forbidden constructs in development:\n" + "\n".join(bad[:20]))
         aud = {"closed": 0, "axioms": []}
